@@ -46,7 +46,16 @@ def signedInt (s : List Char) : Option (List Char × List Char) :=
   let (ds, rest') := span isDigit rest
   if ds.isEmpty then none else some (sign ++ ds, rest')
 
-/-- `t_RANGE_LITERAL`: `-?\d+\s*\.\.\s*-?\d+(\s*:\s*[1-9]\d*)?` → value `start,stop,stride|None`. -/
+/-- the decimal text of `int(text)`: leading zeros dropped, `-0` is `0` -/
+def canonInt (cs : List Char) : List Char :=
+  let (neg, ds) := match cs with
+    | '-' :: r => (true, r)
+    | _ => (false, cs)
+  let ds' := ds.dropWhile (· == '0')
+  if ds'.isEmpty then ['0'] else if neg then '-' :: ds' else ds'
+
+/-- `t_RANGE_LITERAL`: `-?\d+\s*\.\.\s*-?\d+(\s*:\s*[1-9]\d*)?` → value `start,stop,stride|None` (the ends converted
+with `int`). -/
 def range (s : List Char) : Option (Tok × List Char) :=
   match signedInt s with
   | none => none
@@ -59,6 +68,8 @@ def range (s : List Char) : Option (Tok × List Char) :=
       | none => none
       | some (b, r5) =>
         let (_, r6) := span isSpace r5
+        let a := canonInt a
+        let b := canonInt b
         let noStride := some (⟨"RANGE_LITERAL", String.ofList a ++ "," ++ String.ofList b ++ ",None"⟩, r5)
         match r6 with
         | ':' :: r7 =>
